@@ -40,11 +40,15 @@ def C02_full : Prop :=
 /-- a freshly created database represents the empty transaction list -/
 theorem created_closed : Closed [] (created cfgOfSource) := by
   have hlen : (created cfgOfSource).pd.hdr.i2eLen = 0 := by decide
-  refine ⟨⟨by decide, ⟨by decide, by decide⟩⟩, [], 0, by rfl, ?_, ?_⟩
-  · exact ⟨by decide, by decide, by decide, by decide, by intro e; simp [allEdges, logRuns],
-      by intro q; simp [allProps, logRuns], by decide, by decide, by decide⟩
+  have hsegs : (created cfgOfSource).pd.segs = [] := by decide
+  have htrees : (created cfgOfSource).pd.trees = [] := by decide
+  refine ⟨⟨by decide, ⟨by decide, by decide⟩⟩, [], 0, by rfl, ?_, ?_, ?_⟩
+  · exact ⟨by decide, by decide, by decide, by decide, by decide, List.Pairwise.nil, by intro tx h; simp at h⟩
   · exact ⟨⟨by decide, by decide, by decide, by decide, ⟨[3, 4], by decide, by decide, by decide⟩⟩,
       by decide, by decide, by decide, by intro i hi; rw [hlen] at hi; omega⟩
+  · refine ⟨by intro k hk; simp [scan] at hk, by rw [hsegs]; intro s hs; simp at hs,
+      by rw [htrees]; intro t ht; simp at ht, by intro e; simp [allEdges, logRuns, scan], by intro q hq; simp [logRuns] at hq,
+      by decide, ⟨[], by intro q hq; simp [allProps] at hq, fun _ => rfl, fun h => absurd (by decide) h⟩⟩
 
 /-- **C02 (every step, one commit)**: from any state in which files and handle agree on `T`,
     after EVERY prefix of the I/O steps of a commit, in EVERY crash mode (process death; power loss
